@@ -551,3 +551,116 @@ func IndexWalkRet(xs []int, stop int) int {
 	}
 	return 0
 }
+
+// RevWalkA / RevWalkB / RevWalkC: the three spellings of a walk from the end of a slice (translated as ONE list loop
+// over the reversed slice), with continue, break, an early return and an accumulator whose value depends on the order.
+func RevWalkA(xs []int, stop int) int {
+	var s = 0
+	for i := range xs {
+		if xs[len(xs)-i-1] < 0 {
+			continue
+		}
+		if xs[len(xs)-i-1] == stop {
+			break
+		}
+		s = s*3 + xs[len(xs)-i-1]
+	}
+	return s
+}
+
+func RevWalkB(xs []int, stop int) int {
+	var s = 0
+	for i := len(xs) - 1; i >= 0; i-- {
+		if xs[i] < 0 {
+			continue
+		}
+		if xs[i] == stop {
+			return -s
+		}
+		s = s*3 + xs[i]
+	}
+	return s
+}
+
+func RevWalkC(xs []int, stop int) int {
+	var s = 0
+	for d := len(xs); d > 0; d-- {
+		var x = xs[d-1]
+		if x == stop {
+			break
+		}
+		s = s*3 + x
+	}
+	return s
+}
+
+// RevWalkIdx: a count-down loop that uses its counter as a number too: NOT a list loop (stays a counting loop).
+func RevWalkIdx(xs []int, stop int) int {
+	var s = 0
+	for i := len(xs) - 1; i >= 0; i-- {
+		if xs[i] == stop {
+			return i
+		}
+		s = s*3 + xs[i]
+	}
+	return s
+}
+
+// ---- the same stack written the other way: a place helper, count-down walks (translated as the same list loops) ----
+
+// Last is a name for the last frame.
+func (f Frames) Last() *Frame { return &f[len(f)-1] }
+
+func (f Frames) Set2(k string, v int) { f.Last().Vars[k] = v }
+
+func (f *Frames) Mark2() { f.Last().On = true }
+
+func (f Frames) IsOn() bool { return f.Last().On }
+
+func (f Frames) Get2(k string) int {
+	for i := len(f) - 1; i >= 0; i-- {
+		if v, ok := f[i].Vars[k]; ok {
+			return v
+		}
+	}
+	return -1
+}
+
+func (f Frames) Cut2() Frames {
+	for i := len(f) - 1; i >= 0; i-- {
+		if f[i].On {
+			var n = i + 1
+			return f[:n:n]
+		}
+	}
+	panic("none")
+}
+
+func (f Frames) Cut3() Frames {
+	for depth := len(f); depth > 0; depth-- {
+		if !f[depth-1].On {
+			continue
+		}
+		return f[:depth:depth]
+	}
+	panic("none")
+}
+
+// Script3 is Script2 over these methods.
+func Script3(f *Frames, k string, mark bool) (int, int) {
+	f.Push(false)
+	f.Set2(k, 1)
+	if mark {
+		f.Mark2()
+	}
+	f.Push(false)
+	f.Set2("x", 2)
+	f.Set2(k+"x", 3)
+	a := f.Get2(k)*10 + f.Get2("x")
+	if f.IsOn() {
+		a = -a
+	}
+	b := len(f.Cut2())*100 + f.Cut3().Get2(k) + f.Cut2().Get2("x") + len(f.Cut3())*1000
+	*f = (*f)[:0]
+	return a, b
+}
